@@ -94,9 +94,9 @@ func genPlan(t *rapid.T, tier string) any {
 			s.Target = rapid.SampledFrom([]string{"index", "data"}).Draw(t, "target")
 			s.Content = rapid.IntRange(0, nc-1).Draw(t, "content")
 			if s.Target == "index" {
-				s.How = rapid.SampledFrom([]string{"truncate", "extend", "flip", "delete", "replace", "nearvalid", "nearvalid"}).Draw(t, "how")
+				s.How = rapid.SampledFrom([]string{"truncate", "extend", "flip", "delete", "replace", "nearvalid", "nearvalid", "isdir", "loop"}).Draw(t, "how")
 			} else {
-				s.How = rapid.SampledFrom([]string{"truncate", "extend", "flip", "delete", "replace", "symlink"}).Draw(t, "how")
+				s.How = rapid.SampledFrom([]string{"truncate", "extend", "flip", "delete", "replace", "symlink", "isdir", "loop"}).Draw(t, "how")
 			}
 			s.Arg = rapid.IntRange(0, 200).Draw(t, "arg")
 			s.Variant = rapid.IntRange(0, 22).Draw(t, "variant")
@@ -196,7 +196,7 @@ func run(t *testing.T, plan any, keep bool) *simcheck.Outcome {
 		where     string
 	}
 	var held []heldBytes
-	clockBack, scribbles := 0, 0
+	clockBack, scribbles, oddPutFailures := 0, 0, 0
 	var sources []string // the caller's own files that were handed to Put
 	defer func() {
 		for _, src := range sources {
@@ -209,6 +209,14 @@ func run(t *testing.T, plan any, keep bool) *simcheck.Outcome {
 		if err != nil {
 			out.Inconclusive = "cache.Open: " + err.Error()
 			return
+		}
+		// what a miss looks like in this build: the error for an id that was plainly never stored
+		_, err0 := c.Get(cachekit.ActionID(7))
+		missType := fmt.Sprintf("%T", err0)
+		notAMiss := func(where string, err error) {
+			if err != nil && fmt.Sprintf("%T", err) != missType {
+				out.Violate("not-a-miss-error", "%s: the lookup failed with %T (%v), not with the not-found error a plain miss gives (%s): a caller cannot tell it is a miss", where, err, err, missType)
+			}
 		}
 		for si, st := range p.Steps {
 			id := cachekit.ActionID(st.ID)
@@ -272,6 +280,23 @@ func run(t *testing.T, plan any, keep bool) *simcheck.Outcome {
 					}
 				}
 				if err != nil {
+					// a directory or a looping link where a cache file belongs is not among the kinds of damage
+					// a Put promises to repair: it may fail then (and changes nothing in the model)
+					odd := func(path string) bool {
+						fi, lerr := os.Lstat(path)
+						if lerr != nil {
+							return false
+						}
+						if fi.IsDir() {
+							return true
+						}
+						_, serr := os.Stat(path)
+						return fi.Mode()&os.ModeSymlink != 0 && serr != nil
+					}
+					if odd(cachekit.IndexPath(dir, id)) || odd(cachekit.DataPath(dir, outIDs[st.Content])) {
+						oddPutFailures++
+						continue
+					}
 					out.Violate("put-error", "%s: Put failed in a fault-free run: %v", where, err)
 					return
 				}
@@ -283,6 +308,7 @@ func run(t *testing.T, plan any, keep bool) *simcheck.Outcome {
 				dataDamaged[outIDs[st.Content]] = false
 			case "get":
 				e, err := c.Get(id)
+				notAMiss(where, err)
 				if intact {
 					want := stored[st.ID]
 					if err != nil {
@@ -295,6 +321,7 @@ func run(t *testing.T, plan any, keep bool) *simcheck.Outcome {
 				}
 			case "getbytes":
 				data, e, err := c.GetBytes(id)
+				notAMiss(where, err)
 				if err == nil && len(held) < 8 {
 					held = append(held, heldBytes{data, append([]byte(nil), data...), where})
 				}
@@ -315,6 +342,7 @@ func run(t *testing.T, plan any, keep bool) *simcheck.Outcome {
 				}
 			case "getfile":
 				file, e, err := c.GetFile(id)
+				notAMiss(where, err)
 				if err == nil {
 					fi, serr := os.Stat(file)
 					if serr != nil {
@@ -349,10 +377,12 @@ func run(t *testing.T, plan any, keep bool) *simcheck.Outcome {
 					}
 					old, rerr := os.ReadFile(path)
 					exists := rerr == nil
+					_, lerr0 := os.Lstat(path)
 					defer func(target string, sid, content int) {
 						// the model marks the file damaged only if the step changed it
 						now, nerr := os.ReadFile(path)
-						if (nerr == nil) == exists && bytes.Equal(now, old) {
+						_, lerr1 := os.Lstat(path)
+						if (nerr == nil) == exists && bytes.Equal(now, old) && (lerr0 == nil) == (lerr1 == nil) {
 							return
 						}
 						if target == "index" {
@@ -383,7 +413,15 @@ func run(t *testing.T, plan any, keep bool) *simcheck.Outcome {
 							os.WriteFile(path, b, 0o666)
 						}
 					case "delete":
-						os.Remove(path)
+						os.RemoveAll(path)
+					case "isdir":
+						// a directory where the file should be (opening works, reading fails)
+						os.RemoveAll(path)
+						os.MkdirAll(filepath.Join(path, "x"), 0o777)
+					case "loop":
+						// a symbolic link to itself (opening fails, but not with "does not exist")
+						os.RemoveAll(path)
+						os.Symlink(filepath.Base(path), path)
 					case "replace":
 						n := st.Arg
 						if st.Variant%3 == 0 && exists {
@@ -445,6 +483,7 @@ func run(t *testing.T, plan any, keep bool) *simcheck.Outcome {
 	out.Count("lookups_after_damage", int64(lookupAfterDamage))
 	out.Count("repairs_by_put", int64(repairs))
 	out.Count("fault_clock_stepped_back", int64(clockBack))
+	out.Count("puts_refused_over_a_directory_or_link_loop", int64(oddPutFailures))
 	out.Count("source_files_rewritten_after_put", int64(scribbles))
 	for _, st := range p.Steps {
 		if st.Kind == "damage" {
@@ -459,7 +498,7 @@ var harness = &simcheck.Harness{
 	Level:    "exploration",
 	Rule: "rapid draws a history of up to 14 (quick) / 25 (thorough) steps over 3 action ids and up to 4 contents of sizes {0,1,2,100,5000,40000}: " +
 		"Put (PutBytes, a chunking ReadSeeker, or a file of the caller's that it later rewrites in place or empties), Get, GetBytes, GetFile, OutputFile, steps of the wall clock (1s .. 400d forwards, 1s .. 6d backwards), and damage steps applied with the raw OS between operations " +
-		"(truncate/extend/flip/delete/replace of index or data files, data files replaced by symbolic links, 23 kinds of nearly valid index entries); every byte slice returned by GetBytes is re-compared with a private copy before each later step; non-trivial = at least one lookup after a damage step; " +
+		"(truncate/extend/flip/delete/replace of index or data files, a directory or a symbolic link to itself in their place, data files replaced by symbolic links, 23 kinds of nearly valid index entries); every byte slice returned by GetBytes is re-compared with a private copy before each later step; non-trivial = at least one lookup after a damage step; " +
 		"distinct by the hash of the intercepted file-operation sequence",
 	Gen:     genPlan,
 	NewPlan: func() any { return &Plan{} },
@@ -472,7 +511,7 @@ var harness = &simcheck.Harness{
 	},
 	Assumptions: []string{
 		"single task: no concurrency and no I/O faults in this check (those are C11 and C12); the fault dimension is damage at rest",
-		"any error from a lookup counts as not-found (the package exports no predicate for it)",
+		"a failed lookup must fail with an error of the same dynamic type as the error for a plainly absent entry (the package exports no predicate; the type is learnt from the build under test at the start of each run)",
 	},
 	RequiredCounters: []string{"op_open", "op_read", "op_write", "lookups_after_damage"},
 }
